@@ -73,7 +73,7 @@ def run(ctx):
 
 
 META = {
-    "text": "Every mutex of the library is instrumented (an instrumented copy of internal/sync/sync.go applied with go's -overlay at build time, reporting through internal/vhook; /repo's file is untouched); randomly generated concurrent programs (2..16 goroutines, 34 kinds of operations over server, namespace, socket, manager and adapter, operations issued from event, acknowledgement, connection and disconnect handlers too, GOMAXPROCS 1/2/4/16, injected yields) run against a real server with real clients under a watchdog. The recorded Lock/RLock/Unlock/RUnlock sequences of every goroutine stretch that held two locks at once become the programs of Locks.tla; TLC runs every pair of programs of a scenario (also a program against itself) through all interleavings under sync.Mutex / sync.RWMutex semantics with writer preference and checks that somebody can always move (no deadlock), and the trace itself is checked for mutexes still held or awaited after everything ended. Sample inputs (order inversion, recursive read lock) show the model is not vacuous. The client's retry queue (Retries > 0), where a mutex left locked was found (F21), has a specification of its own (RetryQueue.tla: at-least-once, in order, one user acknowledgement, never wedged) with MC, deviations and trace validation of scripted and random outage / slow-ack / mute-server scenarios. The data-race clause is outside what a TLA+ specification decides: the same programs also run under the race detector as a side oracle.",
+    "text": "Every mutex of the library is instrumented (an instrumented copy of internal/sync/sync.go applied with go's -overlay at build time, reporting through internal/vhook; /repo's file is untouched); randomly generated concurrent programs (2..16 goroutines, 34 kinds of operations over server, namespace, socket, manager and adapter, operations issued from event, acknowledgement, connection and disconnect handlers too, GOMAXPROCS 1/2/4/16, injected yields) run against a real server with real clients under a watchdog. The recorded Lock/RLock/Unlock/RUnlock sequences of every goroutine stretch that held two locks at once become the programs of Locks.tla; TLC runs every pair of programs of a scenario (also a program against itself) through all interleavings under sync.Mutex / sync.RWMutex semantics with writer preference and checks that somebody can always move (no deadlock), and the trace itself is checked for mutexes still held or awaited after everything ended. Sample inputs (order inversion, recursive read lock) show the model is not vacuous. The client's retry queue (Retries > 0), where a mutex left locked was found (F21), has a specification of its own (RetryQueue.tla: at-least-once, in order, one user acknowledgement, never wedged) with MC, deviations and trace validation of scripted and random outage / slow-ack / mute-server scenarios. The data-race clause is outside what a TLA+ specification decides: the same programs also run under the race detector as a side oracle. Every second program runs on a server with connection state recovery, and three operation kinds persist and restore sessions of the harness's own around the 15 ms window, so that every exit of RestoreSession is taken.",
     "note": "Partial: deadlocks through channels / WaitGroups are covered only by the watchdog; potential deadlocks are reported without happens-before pruning; data races: race detector only.",
     "technique": "TLA+/TLC model checking of lock programs recorded from the implementation (trace -> specification input) + watchdog; race detector as side oracle",
     "design_ref": "DESIGN.md 4.12, 5 (C16)",
